@@ -51,7 +51,7 @@ class World:
         self.cfg = cfg
         self.kind = cfg.get('kind', 'bdd')          # 'bdd' | 'autoref'
         self.nmax = cfg.get('nmax', 5)
-        self.U = tuple('abcdefgh'[:self.nmax])      # universe of names
+        self.U = tuple('abcdefghijkl'[:self.nmax])      # universe of names
         self.n = self.nmax
         self.F = tt.full(self.n)
         self.idx = {x: j for j, x in enumerate(self.U)}
@@ -383,9 +383,32 @@ class World:
         self.hold(self.api.var(x), self.var_tt(x), keep)
 
     def op_build(self, t, route, keep=1):
+        if self.nmax > 6:
+            # large universes: a function of three declared variables
+            # (chosen by the high bits of t) given by the low 8 bits
+            if not self.order:
+                t = self.F if t & 1 else 0
+            else:
+                m = len(self.order)
+                xs = [self.order[(t >> (8 + 4 * i)) % m] for i in range(3)]
+                vs = [self.var_tt(x) for x in xs]
+                r = 0
+                for i in range(8):
+                    if (t >> i) & 1:
+                        c = self.F
+                        for k in range(3):
+                            c &= vs[k] if (i >> k) & 1 else (~vs[k] & self.F)
+                        r |= c
+                t = r
+            route = 0 if route % 4 == 2 else route
         t = self.project(t)
         route %= 4
         if route == 0:
+            with self.quiet():
+                u = Builder(self.b, self.U)(t)
+                if self.kind == 'autoref':
+                    u = self._ar.Function(u, self.A)
+        elif route == 1 and self.nmax > 6:
             with self.quiet():
                 u = Builder(self.b, self.U)(t)
                 if self.kind == 'autoref':
